@@ -13,6 +13,7 @@ verus! {
         all_elem_ok::<T, OT, F>(this.view()),
     ensures
         final(f).inv(),
+        final(f).cfg() == old(f).cfg(),
         final(out).cap() == old(out).cap(),
         window >= 1 ==> trace_strict(final(f).hist(), this.view(), window),     // #C02 trace
         window >= 1 ==> out_ok(final(out).written(), final(f).hist()),          // #C02,C10 stored_at_i_once
@@ -23,7 +24,7 @@ verus! {
     invariant
         window <= len, len == this.view().len(), out.cap() == len, window >= 1,
         all_elem_ok::<T, OT, F>(this.view()),
-        f.hist().len() == i, f.inv(), nrm(f.hist()) == 0,
+        f.hist().len() == i, f.inv(), f.cfg() == old(f).cfg(), nrm(f.hist()) == 0,
         forall|j: int| out.written().dom().contains(j) <==> 0 <= j < i,
         forall|j: int| 0 <= j < i ==> (#[trigger] f.hist()[j]).v == this.view()[j]
             && f.hist()[j].rm == exp_rm(this.view(), window as int, j) && out.written()[j] == f.hist()[j].out,
@@ -36,7 +37,7 @@ verus! {
         window <= len, len == this.view().len(), out.cap() == len, window >= 1,
         all_elem_ok::<T, OT, F>(this.view()),
         start == end - (window - 1),
-        f.hist().len() == end, f.inv(), nrm(f.hist()) == start,
+        f.hist().len() == end, f.inv(), f.cfg() == old(f).cfg(), nrm(f.hist()) == start,
         forall|j: int| out.written().dom().contains(j) <==> 0 <= j < end,
         forall|j: int| 0 <= j < end ==> (#[trigger] f.hist()[j]).v == this.view()[j]
             && f.hist()[j].rm == exp_rm(this.view(), window as int, j) && out.written()[j] == f.hist()[j].out,
@@ -59,6 +60,7 @@ verus! {
         other.view().len() < this.view().len() ==> panic_allowed(),   // mismatched second series: clean panic only
     ensures
         final(f).inv(),
+        final(f).cfg() == old(f).cfg(),
         final(out).cap() == old(out).cap(),
         window >= 1 ==> trace_strict(final(f).hist(), zipv(this.view(), other.view()), window),     // #C02 trace
         window >= 1 ==> out_ok(final(out).written(), final(f).hist()),          // #C02,C10 stored_at_i_once
@@ -72,7 +74,7 @@ verus! {
         other.view().len() >= len,    // #C10 second_series_long_enough
         z == zipv(this.view(), other.view()),
         all_elem_ok::<(T, T2), OT, F>(z),
-        f.hist().len() == i, f.inv(), nrm(f.hist()) == 0,
+        f.hist().len() == i, f.inv(), f.cfg() == old(f).cfg(), nrm(f.hist()) == 0,
         forall|j: int| out.written().dom().contains(j) <==> 0 <= j < i,
         forall|j: int| 0 <= j < i ==> (#[trigger] f.hist()[j]).v == z[j]
             && f.hist()[j].rm == exp_rm(z, window as int, j) && out.written()[j] == f.hist()[j].out,
@@ -88,7 +90,7 @@ verus! {
         z == zipv(this.view(), other.view()),
         all_elem_ok::<(T, T2), OT, F>(z),
         start == end - (window - 1),
-        f.hist().len() == end, f.inv(), nrm(f.hist()) == start,
+        f.hist().len() == end, f.inv(), f.cfg() == old(f).cfg(), nrm(f.hist()) == start,
         forall|j: int| out.written().dom().contains(j) <==> 0 <= j < end,
         forall|j: int| 0 <= j < end ==> (#[trigger] f.hist()[j]).v == z[j]
             && f.hist()[j].rm == exp_rm(z, window as int, j) && out.written()[j] == f.hist()[j].out,
@@ -114,6 +116,7 @@ verus! {
         old(f).series() == this.view(),
     ensures
         final(f).inv(),
+        final(f).cfg() == old(f).cfg(),
         final(f).series() == old(f).series(),
         final(out).cap() == old(out).cap(),
         window >= 1 ==> trace_idx_strict(final(f).hist(), this.view(), window),     // #C02 trace
@@ -123,7 +126,7 @@ verus! {
     invariant
         window <= len, len == this.view().len(), out.cap() == len, window >= 1,
         f.series() == this.view(),
-        f.hist().len() == i, f.inv(),
+        f.hist().len() == i, f.inv(), f.cfg() == old(f).cfg(),
         forall|j: int| out.written().dom().contains(j) <==> 0 <= j < i,
         forall|j: int| 0 <= j < i ==> (#[trigger] f.hist()[j]).v == this.view()[j] && f.hist()[j].end == j
             && f.hist()[j].start == exp_start(window as int, j) && out.written()[j] == f.hist()[j].out,
@@ -132,7 +135,7 @@ verus! {
         window <= len, len == this.view().len(), out.cap() == len, window >= 1,
         f.series() == this.view(),
         start == end - (window - 1),
-        f.hist().len() == end, f.inv(),
+        f.hist().len() == end, f.inv(), f.cfg() == old(f).cfg(),
         forall|j: int| out.written().dom().contains(j) <==> 0 <= j < end,
         forall|j: int| 0 <= j < end ==> (#[trigger] f.hist()[j]).v == this.view()[j] && f.hist()[j].end == j
             && f.hist()[j].start == exp_start(window as int, j) && out.written()[j] == f.hist()[j].out,
@@ -150,6 +153,7 @@ verus! {
         other.view().len() < this.view().len() ==> panic_allowed(),   // mismatched second series: clean panic only
     ensures
         final(f).inv(),
+        final(f).cfg() == old(f).cfg(),
         final(f).series() == old(f).series(),
         final(out).cap() == old(out).cap(),
         window >= 1 ==> trace_idx_strict(final(f).hist(), zipv(this.view(), other.view()), window),     // #C02 trace
@@ -162,7 +166,7 @@ verus! {
         window <= len, len == this.view().len(), out.cap() == len, window >= 1,
         other.view().len() >= len,    // #C10 second_series_long_enough
         z == zipv(this.view(), other.view()), f.series() == z,
-        f.hist().len() == i, f.inv(),
+        f.hist().len() == i, f.inv(), f.cfg() == old(f).cfg(),
         forall|j: int| out.written().dom().contains(j) <==> 0 <= j < i,
         forall|j: int| 0 <= j < i ==> (#[trigger] f.hist()[j]).v == z[j] && f.hist()[j].end == j
             && f.hist()[j].start == exp_start(window as int, j) && out.written()[j] == f.hist()[j].out,
@@ -174,7 +178,7 @@ verus! {
         other.view().len() >= len,    // #C10 second_series_long_enough
         z == zipv(this.view(), other.view()), f.series() == z,
         start == end - (window - 1),
-        f.hist().len() == end, f.inv(),
+        f.hist().len() == end, f.inv(), f.cfg() == old(f).cfg(),
         forall|j: int| out.written().dom().contains(j) <==> 0 <= j < end,
         forall|j: int| 0 <= j < end ==> (#[trigger] f.hist()[j]).v == z[j] && f.hist()[j].end == j
             && f.hist()[j].start == exp_start(window as int, j) && out.written()[j] == f.hist()[j].out,
@@ -194,6 +198,7 @@ verus! {
         forall|s: &V::Slice| #[trigger] F::sview(s) == V::slice_view(s),
     ensures
         final(f).inv(),
+        final(f).cfg() == old(f).cfg(),
         final(out).cap() == old(out).cap(),
         window >= 1 ==> trace_slice(final(f).hist(), this.view(), wclamp(window, this.view().len())),     // #C02 slice_is_window
         window >= 1 ==> out_slice_ok(final(out).written(), final(f).hist()),          // #C02,C10 stored_at_i_once
@@ -202,7 +207,7 @@ verus! {
     invariant
         window <= len, len == this.view().len(), out.cap() == len, window >= 1, this.supports_slice(),
         forall|s: &V::Slice| #[trigger] F::sview(s) == V::slice_view(s),
-        f.hist().len() == i, f.inv(),
+        f.hist().len() == i, f.inv(), f.cfg() == old(f).cfg(),
         forall|j: int| out.written().dom().contains(j) <==> 0 <= j < i,
         forall|j: int| 0 <= j < i ==> (#[trigger] f.hist()[j]).s =~= this.view().subrange(wstart(window as int, j), j + 1)
             && out.written()[j] == f.hist()[j].out,
@@ -211,7 +216,7 @@ verus! {
         window <= len, len == this.view().len(), out.cap() == len, window >= 1, this.supports_slice(),
         forall|s: &V::Slice| #[trigger] F::sview(s) == V::slice_view(s),
         start == end - (window - 1),
-        f.hist().len() == end, f.inv(),
+        f.hist().len() == end, f.inv(), f.cfg() == old(f).cfg(),
         forall|j: int| out.written().dom().contains(j) <==> 0 <= j < end,
         forall|j: int| 0 <= j < end ==> (#[trigger] f.hist()[j]).s =~= this.view().subrange(wstart(window as int, j), j + 1)
             && out.written()[j] == f.hist()[j].out,
